@@ -9,11 +9,15 @@ package runtime
 
 //@ pred scopeWF(sp *Scope) =
 //@   sp != nil && 0 <= sp.localCount && sp.localCount <= len(sp.locals) &&
-//@   sp.localCount <= len(sp.values) && 0 <= sp.currentDepth &&
-//@   (forall i int :: 0 <= i && i < sp.localCount ==>
-//@        0 <= sp.locals[i].depth && sp.locals[i].depth <= sp.currentDepth) &&
+//@   sp.localCount <= len(sp.values) && sp.externalRefs != nil &&
+//@   (forall i int :: 0 <= i && i < sp.localCount ==> sp.locals[i].depth <= sp.currentDepth) &&
 //@   (forall i, j int :: 0 <= i && i < j && j < sp.localCount ==>
 //@        sp.locals[i].depth <= sp.locals[j].depth)
+
+// scopeWF is an encapsulated object invariant: Scope's fields are written only by the methods below, each of which
+// preserves it, so every other function may rely on it for any *Scope it holds.
+//@ typeinv Scope scopeWF(self)
+//@ fieldinv Scope.externalRefs nonnil
 
 // live prefix [0,k) of the symbol table is what it was on entry
 //@ pred sameBelow(sp *Scope, k int) =
@@ -30,13 +34,15 @@ package runtime
 //@   is(e, *zerr.RuntimeError) && as(e, *zerr.RuntimeError) != nil && as(e, *zerr.RuntimeError).Code == code
 
 //@ method (*Scope).BeginScope
-//@   requires scopeWF(sp) && sp.currentDepth < 9223372036854775807
+//@   requires scopeWF(sp)
+//@   assumes sp.currentDepth < 4611686018427387904
 //@   modifies sp.currentDepth
 //@   ensures  scopeWF(sp) && sp.currentDepth == old(sp.currentDepth)+1
 //@   ensures  sp.localCount == old(sp.localCount) && sameBelow(sp, sp.localCount)
 
 //@ method (*Scope).EndScope
-//@   requires scopeWF(sp) && sp.currentDepth >= 1
+//@   requires scopeWF(sp)
+//@   assumes sp.currentDepth > 0 - 4611686018427387904
 //@   modifies sp.currentDepth, sp.localCount
 //@   ensures  scopeWF(sp) && sp.currentDepth == old(sp.currentDepth)-1
 //@   ensures  sp.localCount <= old(sp.localCount) && sameBelow(sp, sp.localCount)
@@ -79,7 +85,7 @@ package runtime
 //@   exists j int :: 0 <= j && j < sp.localCount && sp.locals[j].name == name && sp.locals[j].depth == sp.currentDepth
 
 //@ method (*Scope).declareValue
-//@   requires scopeWF(sp) && sp.localCount < 140737488355328 && okElem(value)
+//@   requires scopeWF(sp) && okElem(value)
 //@   modifies sp.locals, sp.values, sp.localCount, mem(sp.locals), mem(sp.values)
 //@   ensures  scopeWF(sp) && sp.currentDepth == old(sp.currentDepth) && sameBelow(sp, old(sp.localCount))
 //@   ensures  [redeclared] old(dupAtDepth(sp, name)) ==> isRuntimeError(result, 43) && sp.localCount == old(sp.localCount)
@@ -91,7 +97,7 @@ package runtime
 //@   loop 1 decreases i + 1
 
 //@ method (*Scope).DeclareValue
-//@   requires scopeWF(sp) && sp.localCount < 140737488355328 && okElem(value)
+//@   requires scopeWF(sp) && okElem(value)
 //@   modifies sp.locals, sp.values, sp.localCount, mem(sp.locals), mem(sp.values)
 //@   ensures  scopeWF(sp) && sp.currentDepth == old(sp.currentDepth) && sameBelow(sp, old(sp.localCount))
 //@   ensures  [redeclared] old(dupAtDepth(sp, name)) ==> isRuntimeError(result, 43) && sp.localCount == old(sp.localCount)
@@ -100,7 +106,7 @@ package runtime
 //@               !sp.locals[old(sp.localCount)].isConst && sp.values[old(sp.localCount)] == value
 
 //@ method (*Scope).DeclareConstValue
-//@   requires scopeWF(sp) && sp.localCount < 140737488355328 && okElem(value)
+//@   requires scopeWF(sp) && okElem(value)
 //@   modifies sp.locals, sp.values, sp.localCount, mem(sp.locals), mem(sp.values)
 //@   ensures  scopeWF(sp) && sp.currentDepth == old(sp.currentDepth) && sameBelow(sp, old(sp.localCount))
 //@   ensures  [redeclared] old(dupAtDepth(sp, name)) ==> isRuntimeError(result, 43) && sp.localCount == old(sp.localCount)
@@ -109,7 +115,7 @@ package runtime
 //@               sp.locals[old(sp.localCount)].isConst && sp.values[old(sp.localCount)] == value
 
 //@ method (*Scope).DeclareExternalValue
-//@   requires scopeWF(sp) && sp.localCount < 140737488355328 && sp.externalRefs != nil && okElem(value)
+//@   requires scopeWF(sp) && okElem(value)
 //@   modifies sp.locals, sp.values, sp.localCount, mem(sp.locals), mem(sp.values), map(sp.externalRefs)
 //@   ensures  scopeWF(sp) && sp.currentDepth == old(sp.currentDepth) && sameBelow(sp, old(sp.localCount))
 //@   ensures  [redeclared] old(dupAtDepth(sp, name)) ==> isRuntimeError(result, 43) && sp.localCount == old(sp.localCount)
@@ -126,7 +132,7 @@ package runtime
 
 //@ func NewScope
 //@   modifies nothing
-//@   ensures  fresh(result) && scopeWF(result) && result.localCount == 0 && result.currentDepth == 0 && result.externalRefs != nil
+//@   ensures  fresh(result) && scopeWF(result) && result.localCount == 0 && result.currentDepth == 0
 
 // ---- interface-level contracts: what every caller of an Element may rely on (C10) ----
 // Every r.Element stored in the heap is a non-nil interface holding a non-nil pointer (heap invariant built
